@@ -4,6 +4,7 @@ import H2V.Lemmas.ConnCountsPInvC
 -/
 namespace H2V.Lemmas.ConnCountsP
 open H2V H2V.Model H2V.Model.Conn
+variable {ρ : Bool}
 
 theorem noPanic_of_mono {s s' : Streams} (h : Mono s s') (hp : s'.panicked = none) : s.panicked = none := by
   cases hs : s.panicked with
@@ -127,7 +128,7 @@ theorem Inv1.resetEnq {s : Streams} {k : Nat} (hA : KeysOK s) (hi : Inv1 s)
   · rw [hcnts]; exact hi.remoteLe
   · rw [hcnts]; exact hi.errLe
 
-theorem Ev.inv1 {s s' : Streams} (h : Ev s s') : s'.panicked = none → KeysOK s → Inv1 s → Inv1 s' := by
+theorem EvB.inv1 {s s' : Streams} (h : EvB ρ s s') : s'.panicked = none → KeysOK s → Inv1 s → Inv1 s' := by
   induction h with
   | refl s => exact fun _ _ h => h
   | trans e1 e2 ih1 ih2 =>
